@@ -48,6 +48,24 @@ def replay_create(args):
                       "file_before": "\n".join(old_lines), "file_after": new_text, "index": mem, "why": why}
 
 
+def replay_suffix(args):
+    from freezegun import freeze_time
+    c, carry = args
+    stored = (c + "z") if carry else ("0" + c)
+    old_lines = cm.build(0, 0, 0, 1)
+    with zreal.TempZdir("c05s") as z, freeze_time(cm.TODAY.strftime("%Y-%m-%d") + " 10:00:00"):
+        (z / "p.zo").write_text("\n".join(old_lines))
+        (z / ".zorg").mkdir()
+        (z / ".zorg" / "next_ids.json").write_text(json.dumps({"240510": stored}))
+        zreal.create_db(z)
+        new_text = (z / "p.zo").read_text()
+        mem = zreal.db_note_views(z)
+        _, rec = zreal.compile_views(z, "p.zo")
+    bad = mem != rec or any(not r["zid"] for r in rec)
+    return bad, {"summary": "with next suffix %r stored for today, db create writes %r; index ZIDs %r, recompiled ZIDs %r" % (
+        stored, new_text, [m["zid"] for m in mem], [r["zid"] for r in rec])}
+
+
 def replay_kernel(name, args):
     from zorg.service import handlers as hd
     if name == "k_zid_line":
@@ -74,6 +92,8 @@ def replay_kernel(name, args):
 def replayer(name, args, kwargs, meta):
     if name == "create":
         return replay_create(args)
+    if name == "create_suffix":
+        return replay_suffix(args)
     if name == "kf_moddate_no_zid":
         return replay_create((args[0], 9, args[1], -1, args[2]))
     return replay_kernel(name, args)
@@ -117,7 +137,7 @@ def main():
     if "KF-C05-1" in kf_ids:
         conds.append(xh.Cond(H, "kf_moddate_no_zid", timeout=T, env=env0,
                              meta={"family": "known", "known_finding": "KF-C05-1"}))
-    for nm in ("k_zid_line", "k_long_date_word"):
+    for nm in ("k_zid_line", "k_long_date_word", "create_suffix"):
         conds.append(xh.Cond(H, nm, timeout=T, env=env0, meta={"family": "kernel"}))
     conds.append(xh.Cond(H, "create", timeout=30, twin=True, env=dict(env0, XH_STRUCT=0), meta={"variant": "struct0", "family": "twin"}))
     conds.append(xh.Cond(H, "k_zid_line", timeout=30, twin=True, env=env0, meta={"family": "twin"}))
